@@ -92,7 +92,9 @@ claim("C20", "other",
       "decision-table extraction by edge-dominance facts (two siblings compared) + phi/flag dataflow rules + constant list extraction",
       "DESIGN.md 5/C20")
 
-for p in ["C06"]:
-    na(p, PENDING)
+claim("C06", "other",
+      "A panic-site obligation ledger over the whole API closure (Compile, Eval, TryEval, Dump, DumpTable, IndentByParentheses and everything they reach): every index, slice expression, single-result type assertion, integer division, interface comparison, non-constant make and call of a table-held function value gets exactly one verdict — discharged by a sound guard dataflow (difference constraints over registers, variables and fields with inductively verified non-negativity invariants, mod-set kills, predicate summaries) or by kind/type/zero/comparability gates; listed as invariant-governed (compile-time table indices: not decided, never an alarm); covered by a frozen-table entry with its reason; or reported. Plus arity/type-error discipline of all built-ins, never (nil, nil) from Compile, no panic/exit/go in the closure. On the pinned tree it reports exactly the five panic defects that were then repaired. Does not decide termination nor the table-indexed sites of the evaluator.",
+      "obligation ledger: forward must-dataflow over a difference-constraint domain on SSA + edge-dominance gates + frozen table",
+      "DESIGN.md 5/C06")
 
 na("C02", "semantic equivalence of two programs over all inputs and 16 optimisation subsets is a run-time relation on values computed by folding and re-derived jump tables; no structural clause is a necessary condition on its own (its structural parts are decided under C08, C10, C16); an honest not-applicable for static analysis")
